@@ -26,12 +26,12 @@ type Call struct {
 	Cmd    tikvrpc.CmdType
 	// Req is a deep copy of the request body taken at call time; Ctx fields
 	// are copied separately because the sender mutates them between attempts.
-	Req        any
-	RegionID   uint64
-	RegionVer  uint64
-	RegionConf uint64
-	PeerID     uint64
-	StoreID    uint64
+	Req                             any
+	RegionID                        uint64
+	RegionVer                       uint64
+	RegionConf                      uint64
+	PeerID                          uint64
+	StoreID                         uint64
 	ReplicaRead, StaleRead, IsRetry bool
 	// filled at return
 	Resp      any    // deep copy of the response body (nil on transport error)
